@@ -471,7 +471,12 @@ class Body:
             if 1 <= l <= self.d["arg_count"]:
                 return {"k": "arg", "l": l, "proj": proj}
             ds = self.defs_of(l)
-            if proj and ds and l in self.d.get("inl_rets", ()):
+            tuple_scrutinee = bool(proj) and len(ds) == 1 and ds[0][1] != "term" and ds[0][2]["k"] == "agg" and \
+                ds[0][2].get("ak") == "tuple" and isinstance(proj[0], dict) and "f" in proj[0] and "as" not in proj[0] and \
+                not self.blocks[ds[0][0]]["stmts"][ds[0][1]].get("exp")       # (not the operand tuples of assert_eq! & co.)
+            if proj and ds and (l in self.d.get("inl_rets", ()) or tuple_scrutinee):
+                # (for the return slots of virtually inlined helpers, lib/inline.py, and for a tuple that is built only to be taken
+                # apart again - `match (a, b) { .. }`)
                 # (only for the return slots of virtually inlined helpers, lib/inline.py)
                 # constructor / projection cancellation: `(x as V).f` or `x.f` where x was built by an aggregate.  A downcast
                 # to V selects, among several definitions, the aggregates of that variant (a value built as another variant, or
